@@ -105,22 +105,23 @@ func (m *MTProto) makeAuthKey() error { // nolint don't know how to make method 
 	// this apparently is just part of diffie hellman, so just leave it as it is, hope that it will just work
 	_, gB, gAB := math.MakeGAB(dhi.G, big.NewInt(0).SetBytes(dhi.GA), big.NewInt(0).SetBytes(dhi.DhPrime))
 
-	authKey := gAB.Bytes()
-	if authKey[0] == 0 {
-		authKey = authKey[1:]
-	}
+	// auth key is 2048-bit number, so it's ALWAYS 256 bytes, even if number is small and has leading zeros
+	authKey := dry.BigIntBytes(gAB, 2048) // nolint:gomnd
 
 	m.SetAuthKey(authKey)
 
 	// I don't know what it is, apparently some very specific way to generate keys
 	t4 := make([]byte, 32+1+8) // nolint:gomnd ALL PROTOCOL IS A MAGIC
-	copy(t4[0:], nonceSecond.Bytes())
+	// nonces are fixed-width numbers: leading zero bytes are part of them
+	nonceSecondBytes := dry.BigIntBytes(nonceSecond.Int, 256) // nolint:gomnd
+	nonceServerBytes := dry.BigIntBytes(nonceServer.Int, 128) // nolint:gomnd
+	copy(t4[0:], nonceSecondBytes)
 	t4[32] = 1
 	copy(t4[33:], dry.Sha1Byte(m.GetAuthKey())[0:8])
 	nonceHash1 := dry.Sha1Byte(t4)[4:20]
 	salt := make([]byte, tl.LongLen)
-	copy(salt, nonceSecond.Bytes()[:8])
-	math.Xor(salt, nonceServer.Bytes()[:8])
+	copy(salt, nonceSecondBytes[:8])
+	math.Xor(salt, nonceServerBytes[:8])
 	m.serverSalt = int64(binary.LittleEndian.Uint64(salt))
 
 	// (encoding) client_DH_inner_data
@@ -149,7 +150,7 @@ func (m *MTProto) makeAuthKey() error { // nolint don't know how to make method 
 	if nonceServer.Cmp(dhg.ServerNonce.Int) != 0 {
 		return fmt.Errorf("handshake: Wrong server_nonce: %v, %v", nonceServer, dhg.ServerNonce)
 	}
-	if !bytes.Equal(nonceHash1, dhg.NewNonceHash1.Bytes()) {
+	if !bytes.Equal(nonceHash1, dry.BigIntBytes(dhg.NewNonceHash1.Int, 128)) { // nolint:gomnd
 		return fmt.Errorf(
 			"handshake: Wrong new_nonce_hash1: %v, %v",
 			hex.EncodeToString(nonceHash1),
